@@ -48,11 +48,6 @@ ASSUMPTIONS = [
     "_emit_access_log: context variables unrelated to claims are taken at their defaults; their independence from the claims arm is the syntactic frame obligation O3.frame",
 ]
 
-P = lu._DEFAULT_CLAIM_REDACT_RE
-RED = lu.REDACTED
-L_SEARCH = regex.language(P, "search")
-L_FULL = regex.language(P, "fullmatch")
-
 # the statement's list: "token, secret, key, password, authorization, email, phone, address, birthdate, gender,
 # name fields and the other listed OIDC claims" (OIDC standard claims that are personal data)
 SUBSTRING_NAMES = [
@@ -60,6 +55,57 @@ SUBSTRING_NAMES = [
     "given_name", "family_name", "middle_name", "nickname", "preferred_username", "picture", "profile", "website",
 ]  # fmt: skip
 EXACT_NAMES = ["name"]
+
+P = getattr(lu, "_DEFAULT_CLAIM_REDACT_RE", None)
+# The contracts define "sensitive" through the live pattern object.  A tree that decides sensitivity some other way is
+# outside what they can express: every deductive unit then reports Unsupported, and the units that have one fall back to
+# their bounded native search through the real redact_claims (labelled bounded, never counted as proved).
+LIVE_PATTERN_MISSING = P is None
+if LIVE_PATTERN_MISSING:
+    P = re.compile("|".join(SUBSTRING_NAMES) + "|^name$", re.IGNORECASE)  # placeholder so that the module loads
+RED = lu.REDACTED
+
+_pyvc_unit = unit
+
+
+def unit(*a, **kw):  # noqa: F811
+    import functools
+
+    from pyvc.values import Unsupported
+
+    def deco(f):
+        @functools.wraps(f)
+        def guarded(S):
+            if LIVE_PATTERN_MISSING:
+                raise Unsupported("vgi_rpc.logging_utils no longer has _DEFAULT_CLAIM_REDACT_RE: sensitivity is decided by code these contracts do not describe")
+            return f(S)
+
+        return _pyvc_unit(*a, **kw)(guarded)
+
+    return deco
+
+
+def search_cover(ob, seed):
+    """Bounded native stand-in for L1 when there is no live pattern: every listed name, in several ASCII casings and
+    embedded in a longer key, must be redacted by the real redact_claims at the top level and one level down."""
+    for w in SUBSTRING_NAMES + EXACT_NAMES:
+        casings = {w, w.upper(), w.title(), w.capitalize(), w.swapcase(), "".join(c.upper() if i % 2 else c for i, c in enumerate(w)), "".join(c.upper() if i % 2 == 0 else c for i, c in enumerate(w))}
+        for v in sorted(casings):
+            keys = [v] if w in EXACT_NAMES else [v, "x_" + v, v + "_x", "x" + v + "x"]
+            for k in keys:
+                for claims in ({k: "leak"}, {"ctx": {k: "leak"}}, {"items": [{k: "leak"}]}):
+                    try:
+                        out = lu.redact_claims(claims)
+                    except Exception as e:  # noqa: BLE001
+                        return {"variant": k}, ReplayResult(True, f"redact_claims({claims!r}) raised {type(e).__name__}: {e}")
+                    if "leak" in repr(out):
+                        return {"variant": k}, ReplayResult(True, f"redact_claims({claims!r}) -> {out!r}: the value of the listed name {w!r} (spelled {k!r}) is kept")
+    return None
+
+
+L_SEARCH = regex.language(P, "search")
+L_FULL = regex.language(P, "fullmatch")
+
 
 
 def sens(k):
@@ -95,7 +141,7 @@ def replay_cover(inputs, ob):
     return ReplayResult(not hit, f"{P.pattern[:40]}... .search({w!r}) -> {'match' if hit else 'None'} (a listed sensitive name)")
 
 
-@unit("C35.L1 the live pattern fully matches every listed name in any ASCII case", targets=["vgi_rpc/logging_utils.py::_DEFAULT_CLAIM_REDACT_RE"], replay=replay_cover, min_obligations=19)
+@unit("C35.L1 the live pattern fully matches every listed name in any ASCII case", targets=["vgi_rpc/logging_utils.py::_DEFAULT_CLAIM_REDACT_RE"], replay=replay_cover, search=search_cover, min_obligations=19)
 def covers(S):
     words = SUBSTRING_NAMES + EXACT_NAMES
     i = S.choose(len(words))
